@@ -31,6 +31,7 @@ type c07Case struct {
 	Expect      string           `json:"expect"`            // "decodable" | "undecodable" | "ambiguous" per the independent decoder
 	Invalid     []bool           `json:"invalid,omitempty"` // per operation: fails validation against the gateway schema (decided at exec time too)
 	Canary      gen.Op           `json:"canary"`
+	Cfg         rig.Config       `json:"config"` // id-type hint, caching planner (the request is then sent twice: the judged answer comes through the cache), node-hiding merger
 }
 
 func (c07) ID() string            { return "C07" }
@@ -232,6 +233,14 @@ func (p c07) Gen(c *run.Ctx, idx int) (json.RawMessage, error) {
 		return nil, nil
 	}
 	cs := c07Case{U: cu.spec, Canary: *canary}
+	switch idx % 4 {
+	case 1:
+		cs.Cfg.Hint = true
+	case 2:
+		cs.Cfg.Planner, cs.Cfg.TTLms = "cached", 3600000
+	case 3:
+		cs.Cfg.Planner, cs.Cfg.TTLms, cs.Cfg.Hint, cs.Cfg.Merger = "cached", 3600000, true, "sanitize"
+	}
 	validOp := func() *gen.Op {
 		pr := gen.DefaultOpProfile()
 		pr.Depth = 2 + r.Intn(3)
@@ -522,7 +531,7 @@ func (p c07) Exec(c *run.Ctx, idx int, raw json.RawMessage) []run.Result {
 		return []run.Result{{Verdict: "broken", Message: err.Error()}}
 	}
 	res := run.Result{Verdict: run.Held, Counters: map[string]int{}, NonTrivial: true}
-	r, err := rig.New(sp.U, rig.Config{})
+	r, err := rig.New(sp.U, sp.Cfg)
 	if r != nil {
 		defer r.Close()
 	}
@@ -533,6 +542,22 @@ func (p c07) Exec(c *run.Ctx, idx int, raw json.RawMessage) []run.Result {
 		return []run.Result{res}
 	}
 	body := sp.BodyB64
+	if sp.Cfg.Planner == "cached" {
+		// first delivery fills the plan cache (also with whatever a failed planning leaves behind)
+		warm := make(chan *rig.HTTPResult, 1)
+		go func() { warm <- r.Do(sp.ContentType, body) }()
+		select {
+		case w := <-warm:
+			if w.Panic != nil {
+				res.Verdict, res.Symptom, res.Message = run.Violated, "handler-panic: "+errTemplate(fmt.Sprint(w.Panic)), fmt.Sprint(w.Panic)+"\n"+w.Stack
+				return []run.Result{res}
+			}
+		case <-time.After(60 * time.Second):
+			res.Verdict, res.Symptom, res.Message = run.Violated, "handler-did-not-return", "no response within 60s (in-memory services)"
+			return []run.Result{res}
+		}
+		res.Counters["sent_twice_through_plan_cache"] = 1
+	}
 	ctBase := strings.TrimSpace(strings.SplitN(sp.ContentType, ";", 2)[0])
 	var expect string
 	switch ctBase {
